@@ -112,6 +112,10 @@ func runC11(c *Ctx) bool {
 		for _, op := range c11Ops {
 			emit(&Case{Kind: "silent-reader", Opt: map[string]string{"op": op}, Seed: gen.New(c.Seed, 1110, uint64(idx)).Uint64()})
 		}
+		// (8) a writer that accepts nothing (its first Write blocks) while the context expires or is cancelled
+		for _, op := range []string{"text", "json", "yaml", "dryrun"} {
+			emit(&Case{Kind: "silent-writer", Opt: map[string]string{"op": op}, Seed: gen.New(c.Seed, 1111, uint64(idx)).Uint64()})
+		}
 	}
 	return true
 }
@@ -726,6 +730,40 @@ func evalC11(c *Ctx, cs *Case, lm *mon.LeakMonitor) {
 			if j != nil {
 				j.Remove()
 			}
+			if !ok {
+				recycle()
+			}
+		}
+
+	case cs.Kind == "silent-writer":
+		_, doc := c11Doc(r, r.Range(2, 8), nil, "")
+		for i := 0; i < c.Pick(3, 10); i++ {
+			ctx, cancel := context.WithCancel(context.Background())
+			if i%2 == 0 {
+				ctx, cancel = context.WithTimeout(context.Background(), time.Duration(2+r.Intn(20))*time.Millisecond)
+			} else {
+				time.AfterFunc(time.Duration(2+r.Intn(20))*time.Millisecond, cancel)
+			}
+			block := make(chan struct{})
+			e := &c11Exec{op: op, doc: []byte(doc), ctx: ctx, cbFailAt: -1, sched: mon.NewSched(mon.ProfNone, r.Uint64())}
+			e.writer = mon.NewRecWriter()
+			e.writer.Block = block
+			// the consumer "comes back" (and refuses) once the call has returned, so that the goroutine
+			// that sits in the caller's own Write can end
+			e.onReturn = func() { close(block) }
+			cs.N = []int{i}
+			cs.SetDoc(doc)
+			c.Rejournal(cs)
+			e.run(lm)
+			c.Eval(key("silentw"+strconv.Itoa(i)), true)
+			c.Count("silent_writer_calls", 1)
+			det := map[string]any{"doc": trunc(doc, 400), "run": i}
+			ok := c11Judge(c, cs, e, det)
+			if e.guard.Returned && !errors.Is(e.err, ctx.Err()) {
+				det["err"] = errStr(e.err)
+				c.Violation(cs, "cancel.not-the-context-error", op, det)
+			}
+			cancel()
 			if !ok {
 				recycle()
 			}
